@@ -22,7 +22,7 @@ import (
 var (
 	c13IPc   = netip.MustParseAddr("192.168.0.12")
 	c13Tgt   = []packet.Addr{{MAC: env.MAC1, IP: ip4a}, {MAC: env.MAC2, IP: ip4b}}
-	apiNames = []string{"StartHunt(t1)", "StartHunt(t2)", "StopHunt(t1)", "StopHunt(t2)", "Close", "StartHunt(t1 under another IP)"}
+	apiNames = []string{"StartHunt(t1)", "StartHunt(t2)", "StopHunt(t1)", "StopHunt(t2)", "Close", "StartHunt(t1 under another IP)", "StartHunt(t2 under t1's IP)"}
 	pktNames = []string{"req(t1->router)", "req(t1->other)", "req(t3->router)", "probe(m3,offer!=target)", "probe(m3,offer==target)", "probe(m3,offlan)", "probe(t2,nooffer)", "announce(t1)", "reply(t1)", "req(m3 with t1's ip->router)"}
 )
 
@@ -110,6 +110,8 @@ func c13Scenario(api []int, pkts []int) *concScenario {
 						switch op {
 						case 5: // the MAC of t1 with another address: StartHunt is idempotent per MAC
 							h.StartHunt(packet.Addr{MAC: env.MAC1, IP: c13IPc})
+						case 6: // another MAC under the address of t1 (the address moved): the two hunts must stay independent
+							h.StartHunt(packet.Addr{MAC: env.MAC2, IP: ip4a})
 						case 0, 1:
 							h.StartHunt(c13Tgt[op])
 						case 2, 3:
@@ -188,7 +190,7 @@ func c13Monitor(x *concExec, api []int) {
 		in := false
 		open := -1 // frame seq at which the current maybe-hunted interval started
 		for _, e := range log.ev {
-			if e.kind == "api-call" && (e.op == k || (e.op == 5 && k == 0)) { // StartHunt(k) called
+			if e.kind == "api-call" && startsHunt(e.op, k) { // StartHunt(k) called
 				if !in {
 					in, open = true, e.seq
 				}
@@ -218,6 +220,9 @@ func c13Monitor(x *concExec, api []int) {
 		}
 		if e.kind == "api-call" && e.op == 5 {
 			starts[0]++
+		}
+		if e.kind == "api-call" && e.op == 6 {
+			starts[1]++
 		}
 	}
 	var obs []string
@@ -276,7 +281,7 @@ func c13Monitor(x *concExec, api []int) {
 		var stopT int64
 		closeBetween := false
 		for _, e := range log.ev {
-			if e.kind == "api-call" && (e.op == k || (e.op == 5 && k == 0)) {
+			if e.kind == "api-call" && startsHunt(e.op, k) {
 				lastStart = e.seq
 				lastStop = -1
 			}
@@ -359,6 +364,15 @@ func c13Monitor(x *concExec, api []int) {
 	x.obs = append(x.obs, strings.Join(obs, " "))
 }
 
+// startsHunt: does API operation op start a hunt of target k?
+func startsHunt(op, k int) bool { return op == k || (op == 5 && k == 0) || (op == 6 && k == 1) }
+
+// c13Extra: histories of length 3 that both tiers explore. Two hunted targets, one of them stopped / everything closed:
+// the loops must not depend on each other, also when the two MACs were hunted under the same address.
+func c13Extra() [][]int {
+	return [][]int{{0, 1, 2}, {0, 1, 3}, {0, 1, 4}, {1, 0, 2}, {0, 6, 2}, {0, 6, 3}, {6, 0, 2}, {6, 0, 3}, {0, 6, 4}}
+}
+
 func c13Histories(maxLen int) [][]int {
 	out := [][]int{{}}
 	var rec func(cur []int)
@@ -428,9 +442,8 @@ func c13Run(c *core.Ctx, args []string) {
 		exploreScenario(&sub, "C13", sc, bound)
 		c.Count("scenarios", 1)
 	}
-	// two hunted targets, one of them stopped / everything closed: the loops must not depend on each other
-	for i, api := range [][]int{{0, 1, 2}, {0, 1, 3}, {0, 1, 4}, {1, 0, 2}} {
-		if !c.Mine(i+11) || c.Thorough() { // the thorough tier enumerates every history of length 3 anyway
+	for i, api := range c13Extra() {
+		if !c.Mine(i + 7) {
 			continue
 		}
 		sub := *c
@@ -460,8 +473,14 @@ func c13Run(c *core.Ctx, args []string) {
 
 func init() {
 	Registry["C13"] = &Driver{
-		Plan:   func(tier string) []core.Job { return shardJobs("arp", 16, false, 1700) },
-		Run:    c13Run,
-		Replay: concReplayer(func() []*concScenario { return append(c13Scenarios(3, 1), c13Scenarios(2, 2)...) }),
+		Plan: func(tier string) []core.Job { return shardJobs("arp", 16, false, 1700) },
+		Run:  c13Run,
+		Replay: concReplayer(func() []*concScenario {
+			l := append(c13Scenarios(3, 1), c13Scenarios(2, 2)...)
+			for _, api := range c13Extra() {
+				l = append(l, c13Scenario(api, nil))
+			}
+			return l
+		}),
 	}
 }
